@@ -229,6 +229,20 @@ impl Expression for DelFn {
             .and_then(|compact| compact.resolve_constant(&state))
             .and_then(|compact| compact.as_boolean());
 
+        // Deleting (part of) a local variable changes its value: whatever constant the compiler
+        // tracked for it is no longer valid.
+        if let Some(ident) = self.query.variable_ident()
+            && let Some(details) = state.local.variable(ident).cloned()
+        {
+            state.local.insert_variable(
+                ident.clone(),
+                type_def::Details {
+                    type_def: details.type_def,
+                    value: None,
+                },
+            );
+        }
+
         if let Some(compact) = compact {
             self.query.delete_type_def(&mut state.external, compact);
         } else {
